@@ -52,7 +52,8 @@ theorem vis_recovers (mkAc : Bytes) (p : PyStr) (cur : Option PyStr) (hmk : mkAc
     (hc : ∀ c, cur = some c → ValidPin c) :
     ∃ blk body curBlock, formatVisPinBlock mkAc (.str p) (cur.map .str) = .ok blk ∧ blk.length = 8 ∧
       body.length = 7 ∧ hexUpper body = p ++ List.replicate (14 - p.length) 'F' ∧
-      (∀ c, cur = some c → hexUpper curBlock = c ++ List.replicate (16 - c.length) '0') ∧
+      (∀ c, cur = some c → a2bHex (c ++ List.replicate (16 - c.length) '0') = .ok curBlock ∧
+        hexUpper curBlock = c ++ List.replicate (16 - c.length) '0') ∧
       visPlain blk mkAc cur curBlock = UInt8.ofNat p.length :: body := by
   obtain ⟨h4, h12, hd⟩ := hp
   obtain ⟨body, he, hl, hx⟩ := a2bHex_upperHex 7 _ (fill_even p h12) (hd.upperHex.append (isUpperHex_replicate_F _))
@@ -83,7 +84,7 @@ theorem vis_recovers (mkAc : Bytes) (p : PyStr) (cur : Option PyStr) (hmk : mkAc
         Except.bind, pure, Except.pure, toBytesBE_1 p.length (by omega), he, List.singleton_append, hx1, gc, hce]
       rw [xor_eq_xorB _ _ (by rw [hP, hcl])]
     · rw [xorB_length _ _ (by rw [hP, hcl]), hP]
-    · intro c' h; cases h; exact hcx
+    · intro c' h; cases h; exact ⟨hce, hcx⟩
     · simp only [visPlain]
       rw [xorB_cancel _ cb (by rw [hP, hcl]), xorB_cancel _ _ (by rw [hA, hB])]
 
